@@ -1,21 +1,74 @@
 import Hms.Parse.Normal
-/-! Helper lemmas for C07 (expression parser). -/
+import HmsProofs.Lemmas.PrattFuel
+import HmsProofs.Lemmas.PrattSound
+import HmsProofs.Lemmas.PrattComplete
+import HmsProofs.Lemmas.PrattDropTC
+/-! Helper lemmas for C07 (expression parser).
+
+The machinery lives in `PrattBasic` (unfolding/inversion), `PrattFuel` (fuel bound),
+`PrattSound` (soundness up to trailing commas, `Flat`), `PrattComplete` and `PrattDropTC`
+(the same soundness phrased with the function `dropTrailingCommas`). -/
 namespace HmsProofs.Lemmas.Pratt
 open Hms Hms.Pratt
 
 theorem parseE_complete (prec : Prec) (hs : TableSane prec) (p : Nat) (t : Tree) (rest : List TokKind)
     (hn : normal prec p t = true) (hr : headLbp prec rest ≤ p)
     (hsp : rightSpineOK prec (headLbp prec rest) t = true) :
-    ∃ n, ∀ fuel, n ≤ fuel → parseE prec fuel p (flatten t ++ rest) = .ok (t, rest) := by
-  sorry
+    ∃ n, ∀ fuel, n ≤ fuel → parseE prec fuel p (flatten t ++ rest) = .ok (t, rest) :=
+  complete_T hs t p rest (t, rest) hn hsp (LOk.stop hr)
 
-theorem parseE_sound (prec : Prec) (fuel p : Nat) (ts rest : List TokKind) (t : Tree)
+/-- Kernel-checked refutation of the naive soundness statement (`ts = flatten t ++ rest` exactly):
+`parseArgs` accepts a trailing comma that `flatten` never prints; `[ 1 , ]` parses to the
+one-element list, whose flattening is `[ 1 ]`. -/
+theorem parseE_sound_false :
+    ¬ (∀ (prec : Prec) (fuel p : Nat) (ts rest : List TokKind) (t : Tree),
+        parseE prec fuel p ts = .ok (t, rest) →
+        ts = flatten t ++ rest ∧ normal prec p t = true ∧ headLbp prec rest ≤ p
+          ∧ rightSpineOK prec (headLbp prec rest) t = true) := by
+  intro H
+  have h := (H (fun _ => (0, 0)) 4 0 [.lBracket, .int, .comma, .rBracket] []
+    (.list (.cons (.atom .int) .nil)) rfl).1
+  simp [flatten, flattenArgs] at h
+
+/-- Soundness, as it actually holds: whatever `parseE` returns is a normal tree; the consumed
+input `c` is a token sequence of that tree up to trailing commas in argument lists (`Flat`); and
+the remaining input binds no tighter than the context or the tree's right spine. -/
+theorem parseE_sound_partial (prec : Prec) (fuel p : Nat) (ts rest : List TokKind) (t : Tree)
+    (h : parseE prec fuel p ts = .ok (t, rest)) :
+    ∃ c, ts = c ++ rest ∧ Flat t c ∧ normal prec p t = true ∧ headLbp prec rest ≤ p
+      ∧ rightSpineOK prec (headLbp prec rest) t = true :=
+  (sound_all prec fuel).1 p ts t rest h
+
+/-- The same, phrased with a function instead of the relation `Flat`: after erasing every comma
+that directly precedes `)` or `]`, the input is the tree's flattening followed by the (equally
+cleaned) remaining input. -/
+theorem parseE_sound_dropTC (prec : Prec) (fuel p : Nat) (ts rest : List TokKind) (t : Tree)
+    (h : parseE prec fuel p ts = .ok (t, rest)) :
+    dropTrailingCommas ts = flatten t ++ dropTrailingCommas rest ∧ normal prec p t = true
+      ∧ headLbp prec rest ≤ p ∧ rightSpineOK prec (headLbp prec rest) t = true := by
+  obtain ⟨c, rfl, hf, hn, hrest⟩ := parseE_sound_partial prec fuel p ts rest t h
+  exact ⟨flat_drop prec hf p hn rest, hn, hrest⟩
+
+/-- The originally intended statement, for inputs in which no comma is immediately followed
+by `)` or `]`. -/
+theorem parseE_sound_exact (prec : Prec) (fuel p : Nat) (ts rest : List TokKind) (t : Tree)
+    (hntc : hasTrailingComma ts = false)
     (h : parseE prec fuel p ts = .ok (t, rest)) :
     ts = flatten t ++ rest ∧ normal prec p t = true ∧ headLbp prec rest ≤ p
       ∧ rightSpineOK prec (headLbp prec rest) t = true := by
-  sorry
+  obtain ⟨c, rfl, hf, hrest⟩ := parseE_sound_partial prec fuel p ts rest t h
+  rw [flat_exact hf (hasTC_append hntc).1]
+  exact ⟨rfl, hrest⟩
 
-theorem parseExpr_ne_fuel (prec : Prec) (ts : List TokKind) : parseExpr prec ts ≠ .error .fuel := by
-  sorry
+/-- Re-parsing the canonical text of a parse result gives the same result (trailing commas are
+the only information the tree drops). -/
+theorem parseE_reparse (prec : Prec) (hs : TableSane prec) (fuel p : Nat) (ts rest : List TokKind)
+    (t : Tree) (h : parseE prec fuel p ts = .ok (t, rest)) :
+    ∃ n, ∀ fuel', n ≤ fuel' → parseE prec fuel' p (flatten t ++ rest) = .ok (t, rest) := by
+  obtain ⟨c, _, _, hn, hr, hsp⟩ := parseE_sound_partial prec fuel p ts rest t h
+  exact parseE_complete prec hs p t rest hn hr hsp
+
+theorem parseExpr_ne_fuel (prec : Prec) (ts : List TokKind) : parseExpr prec ts ≠ .error .fuel :=
+  (nofuel_all prec _).1 0 ts (by omega)
 
 end HmsProofs.Lemmas.Pratt
